@@ -835,6 +835,12 @@ def gen_ext_cases(ctx):
                 fr = lammps_frames(n, "grow", n - 1)
                 cases.append(dict(engine="lammps", frames=fr, sched=sched_from_times(c, arr, x), code=code, maxlen=5,
                                   left=0.5, right=8.0, rev=0, sub=1, tag="tick-exh"))
+    # A'. the program ends without ever creating its output file (exit 0: LAMMPS → IndexError on `frames[0]`)
+    for eng in ("lammps", "cp2k"):
+        for j in (0, 1, 2, 4):
+            for code in (0, 3):
+                cases.append(dict(engine=eng, frames=[], sched=[(0, 0, 0, 1)] * j + [(0, 0, 0, 0)], code=code, maxlen=3,
+                                  left=0.5, right=8.0, rev=0, sub=1, start=(1.0, 30.0, 1.0), tag="no-file"))
     # B. exhaustive per-sleep schedules, n = 3, 4 × box pattern × crossing frame × length limit × exit code
     for n in (3, 4):
         for times in mono_tuples(n + 1, n):
@@ -1018,6 +1024,34 @@ def check_path_rules(ctx, eng, case, obs, rep, tol=0.0):
         ctx.fail(f"C12:{eng}:raised-on-healthy-run", f"{obs.get('exc')}", rep)
 
 
+def check_inproc_property(ctx, case, obs):
+    """ASE / TurtleMD: own-frame rule, stop/success rule, first frame = start point, backward retraces forward"""
+    eng = case["engine"]
+    rep = {"case": case, "observed": obs}
+    exact = case.get("tag") != "harmonic"
+    check_path_rules(ctx, eng, case, obs, rep, tol=0.0 if exact and eng == "ase" else 1e-6)
+    if obs.get("path"):
+        r0 = obs["recomputed"][0] if obs.get("recomputed") else None
+        flip0 = -1.0 if bool(case["rev"]) != bool(case.get("vel_rev0", False)) else 1.0
+        if r0 is None or abs(r0["d"] - case["d0"]) > 1e-9 or abs(r0["vx"] - flip0 * case["v0"]) > 1e-9:
+            ctx.fail(f"C12:{eng}:first-frame-not-start", f"first frame {r0}, start point d={case['d0']} "
+                                                         f"v={flip0 * case['v0']} (velocities reversed iff reverse != vel_rev)", rep)
+    if "back" in obs:
+        fw = [e["order"] for e in obs["path"]]
+        bw = [e["order"] for e in obs["back"].get("path", [])]
+        tol = 0.0 if exact else 1e-6
+        ok = len(fw) == len(bw) and all(abs(a[0] - b[0]) <= tol and abs(a[1] - b[1]) <= tol for a, b in zip(fw, bw[::-1]))
+        if not ok:
+            ctx.fail(f"C12:{eng}:backward-does-not-retrace", f"forward {fw}, backward from its last frame {bw}", rep)
+
+
+def _infra(case, obs):
+    """an infrastructure problem (fake-program handshake hang, temp dir, …) is never a verdict: exit 2"""
+    print(f"[C12] INFRASTRUCTURE ERROR (exit 2, not a violation) on case {case}: {obs['harness_error']}", flush=True)
+    _cleanup_root()
+    sys.exit(2)
+
+
 def _map_cases(ctx, cases):
     """run the real code on every case, in forked worker processes (each case is self-contained and
     synchronised by handshakes, so parallelism cannot change an outcome)"""
@@ -1051,7 +1085,7 @@ def _run(ctx):
     lines, where = [], []
     for k, (case, obs) in enumerate(zip(cases, obs_all)):
         if "harness_error" in obs:
-            raise RuntimeError(f"C12 harness/infrastructure error on case {case}: {obs['harness_error']}")
+            _infra(case, obs)
         if have_model:
             for variant in (("asis", "rep") if case["engine"] == "lammps" else ("-",)):
                 lines.append(ext_line(case, obs["realised"], variant))
@@ -1108,7 +1142,7 @@ def _run(ctx):
     ilines, iwhere = [], []
     for k, (case, obs) in enumerate(zip(icases, iobs)):
         if "harness_error" in obs:
-            raise RuntimeError(f"C12 harness/infrastructure error on case {case}: {obs['harness_error']}")
+            _infra(case, obs)
         if have_model and case["tag"] != "harmonic":
             ilines.append(inproc_line(case))
             iwhere.append(k)
@@ -1119,14 +1153,9 @@ def _run(ctx):
         ctx.hit(f"{eng}:{case['tag']}")
         rep = {"case": case, "observed": obs}
         exact = case["tag"] != "harmonic"
-        check_path_rules(ctx, eng, case, obs, rep, tol=0.0 if exact and eng == "ase" else 1e-6)
+        check_inproc_property(ctx, case, obs)
         if obs.get("path"):
             ctx.distinct((eng, case["sub"], case["v0"], case["rev"], case["vel_rev0"], case["maxlen"], case["tag"]))
-            r0 = obs["recomputed"][0] if obs.get("recomputed") else None
-            flip0 = -1.0 if bool(case["rev"]) != bool(case.get("vel_rev0", False)) else 1.0
-            if r0 is None or abs(r0["d"] - case["d0"]) > 1e-9 or abs(r0["vx"] - flip0 * case["v0"]) > 1e-9:
-                ctx.fail(f"C12:{eng}:first-frame-not-start", f"first frame {r0}, start point d={case['d0']} "
-                                                             f"v={flip0 * case['v0']} (velocities reversed iff reverse != vel_rev)", rep)
         if k in ians:
             m = parse_model(ians[k])
             ents = [(e["idx"], sc2(e["order"][0]), sc2(e["order"][1])) for e in obs["path"]]
@@ -1139,13 +1168,7 @@ def _run(ctx):
             if obs.get("nframes_file") != len(obs["path"]):
                 ctx.fail(f"C12:{eng}:file-and-path-differ", f"{obs.get('nframes_file')} frames in the file, {len(obs['path'])} in the path", rep)
         if "back" in obs:
-            fw = [e["order"] for e in obs["path"]]
-            bw = [e["order"] for e in obs["back"].get("path", [])]
-            tol = 0.0 if exact else 1e-6
-            ok = len(fw) == len(bw) and all(abs(a[0] - b[0]) <= tol and abs(a[1] - b[1]) <= tol for a, b in zip(fw, bw[::-1]))
             ctx.hit(f"{eng}:retrace")
-            if not ok:
-                ctx.fail(f"C12:{eng}:backward-does-not-retrace", f"forward {fw}, backward from its last frame {bw}", rep)
         if k % 37 == 0:
             ctx.sample({"engine": eng, "case": case, "path": obs.get("path"), "success": obs.get("success")})
     # ================================================================= plug-in engine and add_to_path
@@ -1154,7 +1177,7 @@ def _run(ctx):
     pans = ctx.driver([plugin_line(c) for c in pcases]) if have_model else []
     for k, (case, obs) in enumerate(zip(pcases, pobs)):
         if "harness_error" in obs:
-            raise RuntimeError(f"C12 harness/infrastructure error on case {case}: {obs['harness_error']}")
+            _infra(case, obs)
         ctx.count(1, engine="plugin")
         rep = {"case": case, "observed": obs}
         check_path_rules(ctx, "plugin", case, obs, rep)
@@ -1253,8 +1276,10 @@ def replay(ctx, obj):
         rep = {"case": case, "observed": obs}
         if case["engine"] in ("lammps", "cp2k"):
             check_ext_property(ctx, case, obs)
+        elif case["engine"] in ("turtle", "ase"):
+            check_inproc_property(ctx, case, obs)
         else:
-            check_path_rules(ctx, case["engine"], case, obs, rep, tol=1e-6)
+            check_path_rules(ctx, case["engine"], case, obs, rep)
         bad = ctx.fails[n0:]
         known = ctx.known_hits
         print(json.dumps({"observed": obs, "failures": [(f["signature"], f["what"]) for f in bad], "known": known},
